@@ -36,7 +36,7 @@ def judge_blank_probe(ctx, probe):
         ctx.obligations.append(("probe:blankhost", False, "probe file or driver missing"))
         return
     res = ctx.run_driver(exe, probe, mode="monitor")
-    ok = res["done"] is not None and res["done"][0] == 2
+    ok = res["done"] is not None and res["done"][0] == 2  # both corpus traces must be present
     ctx.obligations.append(("probe:blankhost (2 traces judged by the monitor)", ok, "" if ok else str(res)[:300]))
     for ln, d in res["M"]:
         toks = get_line(probe, ln)
@@ -184,7 +184,7 @@ if __name__ == "__main__":
         "application bytes written on the optimistic path before the handshake completed are not themselves a well-formed multistream token naming a protocol the listener serves (the payload is 9 bytes: 0x00 or 0x20, then the nonce)",
         "concurrent opens: the handler table is fixed during a batch; the interleaving of peerstore reads/AddProtocols is a free parameter of the model (every subset), scope limits inside a concurrent batch are modelled in index order only (the generator keeps limited protocols out of concurrent batches)",
         "limited vs direct: one world reaches the listener only through a circuit-v2 relay (limited connection); the model has the gate of Swarm/Conn.NewStream only (limited and context without WithAllowLimitedConn -> the open fails); waiting for / upgrading to a direct connection is C12's subject; every open goes over the single connection between the two hosts",
-        "p2p/host/blank is outside the model; a fixed probe records its traces under a refusing protocol scope and the monitor judges them (known_findings/C07.json)",
+        "p2p/host/blank is outside the model; a fixed probe records its traces under a refusing protocol scope on every run (fixed corpus case) and the monitor judges them; repaired in /repo by e4bf9e3, a regression is reported as VIOLATION",
     ]
     standard_flow(ctx, dict(
         coq_targets=["c07/Properties.vo", "c07/Extract.vo"],
